@@ -25,7 +25,7 @@ def is_call_to(cg, call, func, names):
     return False
 
 
-def run(ctx):
+def _run_base(ctx):
     repo, cg = ctx.repo, ctx.cg
     ctx.rule('R17.1', 'every os.chdir is paired with a finally-restore of a value read from os.getcwd() before the change',
              floor=1, floor_what='utils.pushd')
@@ -339,3 +339,13 @@ def _is_ipynb_test(test, p_path):
             t.args[0].value == '.ipynb':
         return not neg
     return None
+
+
+def run(ctx):
+    ctx.rule('R17.7', 'name binding: every global name a function refers to is bound at module level or builtin, and every local is assigned on every path before it is read', floor=2)
+    ctx.rule('R17.6', 'every exactly resolved call binds against its callee\'s signature (no missing/unknown/surplus argument on any arm)', floor=1)
+    _run_base(ctx)
+    from ..signatures import call_compat
+    call_compat(ctx, 'R17.6', ['nbdime.gitfiles', 'nbdime.vcs.git.filter_integration'], 'diffing git revisions aborts')
+    from ..names import name_binding
+    name_binding(ctx, 'R17.7', ['nbdime.gitfiles', 'nbdime.vcs.git.filter_integration'])
